@@ -225,7 +225,8 @@ Definition out_clamp (r : regs) (ofm_elem v : Z) : Z :=
    TANH / SIGMOID (16-bit native) and the 16-bit interpolating tables are not modelled *)
 Definition act_ok (r : regs) (ifm_elem ofm_elem : Z) : bool :=
   let a := (r0 r cmd0_NPU_SET_ACTIVATION) mod 4096 in
-  (a =? 0) || ((16 <=? a) && (a <=? 23) && (ifm_elem =? 1) && ((ofm_elem =? 1) || (ofm_elem =? 4))).
+  (a =? 0) || ((16 <=? a) && (a <=? 23) && (ifm_elem =? 1) && ((ofm_elem =? 1) || (ofm_elem =? 4)))
+           || ((16 <=? a) && (a <=? 23) && (ifm_elem =? 2) && (ofm_elem =? 2)).
 (* a 32-bit OFM takes 256 four-byte entries (the exponential table of the 8-bit softmax), indexed like the 8-bit tables by
    the clipped result counted from -128 *)
 Definition activate (x : xcfg) (m : mem) (r : regs) (v : Z) : Z :=
@@ -233,6 +234,15 @@ Definition activate (x : xcfg) (m : mem) (r : regs) (v : Z) : Z :=
   | Some i =>
       if prec_elem_ofm (r0 r cmd0_NPU_SET_OFM_PRECISION) =? 4
       then to_signed 32 (rd_le (get_bank m SHRAM) (x_lut_addr x + i * 256 + 4 * (v + 128)) 4)
+      else if prec_elem_ofm (r0 r cmd0_NPU_SET_OFM_PRECISION) =? 2
+      then (* 16-bit: 512 entries of (slope << 16 | base), indexed by the upper nine bits of the value counted from -32768,
+              interpolated with the lower seven: base + (slope * fraction + 64) >> 7 (the reference kernels' lut_lookup,
+              which Vela's tables are built for) *)
+           let u := v + 32768 in
+           let e := rd_le (get_bank m SHRAM) (x_lut_addr x + i * 256 + 4 * (u / 128)) 4 in
+           let base := to_signed 16 (e mod 65536) in
+           let slope := to_signed 16 (e / 65536) in
+           clampz (-32768) 32767 (base + (slope * (u mod 128) + 64) / 128)
       else rd8 (get_bank m SHRAM) (x_lut_addr x + i * 256 + (v - (if ofm_signed r then -128 else 0)))
   | None => v
   end.
@@ -293,7 +303,9 @@ Definition exec_pool (x : xcfg) (m : mem) (param : Z) (r : regs) : option mem :=
     Some (write_ofm m ov
       (map (fun p => let '(y, xx, c) := p in
               let vs := map (fun q => rdv q c) (filter inb (window y xx)) in
-              (y, xx, c, activate x m r (out_clamp r (fv_elem ov) (fold_left Z.max vs (- 2 ^ 40)))))
+              (* the maximum goes through the output stage like every result: IFM zero point off, OFM zero point on (no
+                 difference for an ordinary max pool, whose two zero points agree; Vela's ARG_MAX relies on it) *)
+              (y, xx, c, activate x m r (out_clamp r (fv_elem ov) (fold_left Z.max vs (- 2 ^ 40) - zpi0 + ofm_zp r))))
            (positions ov)))
   else if (param =? 1) && global_scale r then
     let zpi := s16 (r0 r cmd0_NPU_SET_IFM_ZERO_POINT) in
